@@ -43,9 +43,26 @@ def monitors():
     return [M.C20Admin(), M.C08Passive()]
 
 
+CYCLE_BRANCHES = ('development/9.5', 'development/11.0', 'development/4.4',
+                  'development/5.2', 'development/10.1', 'development/5.0',
+                  'development/4.2', 'stabilization/4.3.4',
+                  'stabilization/10.0.4', 'hotfix/5.1.3', 'hotfix/10.0.3')
+
+
 def prelude(data, hist):
     if data.draw(st.integers(0, 5), label='with_queue') > 0:
         c03.prelude(data, hist, evaluate=False)
+    if data.draw(st.integers(0, 3), label='cycle') == 0:
+        # create - delete (archives) - create again: the archived case of
+        # the statement is only reachable through this cycle
+        b = CYCLE_BRANCHES[data.draw(st.integers(
+            0, len(CYCLE_BRANCHES) - 1), label='cycle_branch')]
+        for kind in ('create_branch', 'delete_branch', 'create_branch'):
+            hist.apply({'op': 'admin', 'kind': kind, 'args': {'branch': b}})
+            hist.apply({'op': 'drain'})
+            if hist.violations:
+                return
+        hist.flags.add('c20_archive_cycle')
 
 
 def nontrivial(h):
